@@ -141,6 +141,24 @@ Fixpoint ededup (l seen : list json) : list json :=
   match l with [] => [] | x :: r => if emem x seen then ededup r seen else x :: ededup r (x :: seen) end.
 Definition einter (a b : list json) : list json := ededup (filter (fun x => emem x b) a) [].
 
+(* _all_of (after the fix): conjunction of two sub-schemas with nested conjunctions flattened and repeated
+   members (same JSON text) dropped; a single remaining member stands for itself *)
+Definition conj_members (x : json) : list json :=
+  match x with
+  | JObj [(k, JArr l)] => if iskw k "allOf" then l else [x]
+  | _ => [x]
+  end.
+Fixpoint jdedup (l seen : list json) : list json :=
+  match l with
+  | [] => []
+  | x :: r => if existsb (json_eqb x) seen then jdedup r seen else x :: jdedup r (x :: seen)
+  end.
+Definition all_of_flat (a b : json) : json :=
+  match jdedup (conj_members a ++ conj_members b) [] with
+  | [x] => x
+  | parts => obj1 "allOf" (JArr parts)
+  end.
+
 Definition simple_merge (key : str) (a b : json) : option (res json) :=
   let num2 (f : Z -> Z -> Z) := Some (do x <- num_of a; do y <- num_of b; Ok (JNum (f x y))) in
   if iskw key "required" then
@@ -150,7 +168,7 @@ Definition simple_merge (key : str) (a b : json) : option (res json) :=
     Some (do x <- num_of a; do y <- num_of b;
           let g := zgcd 200 x y in
           if Z.eqb g 0 then PyErr EOtherPy else Ok (JNum (Z.div (Z.abs (x * y)) g)))
-  else if iskw key "items" then Some (Ok (obj1 "allOf" (JArr [a; b])))
+  else if iskw key "items" then Some (Ok (all_of_flat a b))
   else if iskw key "minimum" then num2 Z.max
   else if iskw key "maximum" then num2 Z.min
   else if iskw key "type" then
@@ -180,12 +198,12 @@ Definition merge_properties (result to_add : dict) : res json :=
   let aa := dget (kw "additionalProperties") to_add in
   let pr1 := map (fun '(n, s) =>
                     match dget n pa with
-                    | Some s2 => (n, all_of2 s s2)
-                    | None => match aa with None => (n, s) | Some a => (n, all_of2 s a) end
+                    | Some s2 => (n, all_of_flat s s2)
+                    | None => match aa with None => (n, s) | Some a => (n, all_of_flat s a) end
                     end) pr in
   Ok (JObj (fold_left (fun acc '(n, s) =>
                          if dhas n acc then acc
-                         else match ar with None => dset n s acc | Some a => dset n (all_of2 s a) acc end)
+                         else match ar with None => dset n s acc | Some a => dset n (all_of_flat s a) acc end)
                       pa pr1)).
 
 (* _merge_prefix_items *)
@@ -199,7 +217,7 @@ Definition merge_prefix_items (result to_add : dict) : res json :=
   let la := length pa in let lb := length pb in
   let pa' := if lb <? la then pa else pa ++ repeat ia (lb - la) in
   let pb' := if lb <? la then pb ++ repeat ib (la - lb) else pb in
-  Ok (JArr (map (fun '(i, j) => all_of2 i j) (combine pa' pb'))).
+  Ok (JArr (map (fun '(i, j) => all_of_flat i j) (combine pa' pb'))).
 
 (* _merge: result is updated with to_add *)
 Definition merge2 (result to_add : dict) : res dict :=
